@@ -144,6 +144,7 @@ theorem Dense.run_reach (lat : Lat L) (G : Graph) (tr : Nat → L → L) (entry 
     split
     · exact hs
     · rename_i x xs hq
+      rw [Dense.reify_eq]
       apply ih
       apply Reach.step hs
       have hmem : (x :: xs).getD (pick k (x :: xs) % (x :: xs).length) x ∈ queued G s := by
@@ -197,6 +198,7 @@ theorem dense_run_terminal (lat : Lat L) (hl : lat.Laws) (G : Graph) (hG : G.WF)
         rw [List.getElem?_eq_getElem hlt]
         exact List.getElem_mem hlt
       simp only [queued, List.mem_filter] at hmem
+      rw [Dense.reify_eq]
       apply ih _ _ (Reach.step hs hmem.2)
       have := mu_step lat G tr rank H hl hr entry s _ (inv_reach lat G tr hl hG entry s hs)
         (asc_reach lat G tr hl hG hm entry s hs) hmem.2
@@ -318,9 +320,9 @@ theorem sparse_terminates (lat : Lat L) (hl : lat.Laws) (P : Prog L) (hw : P.WF)
   exact Sparse.mu_step lat P rank H hl hr val0 s i (Sparse.inv_reach lat P hl hw hd val0 s hreach)
     (Sparse.asc_reach lat P hl hw hd hm val0 h0 s hreach) hq
 
-theorem Sparse.run_reach (lat : Lat L) (P : Prog L) (val0 : Nat → L)
+theorem Sparse.run_reach (lat : Lat L) (P : Prog L) (val0 : Nat → L) (nv : Nat)
     (pick : Nat → List Nat → Nat) (fuel k : Nat) (s : Sparse.St L) (hs : Sparse.Reach lat P val0 s) :
-    Sparse.Reach lat P val0 (Sparse.run lat P pick fuel k s).1 := by
+    Sparse.Reach lat P val0 (Sparse.run lat P nv pick fuel k s).1 := by
   induction fuel generalizing k s with
   | zero => exact hs
   | succ f ih =>
@@ -328,6 +330,7 @@ theorem Sparse.run_reach (lat : Lat L) (P : Prog L) (val0 : Nat → L)
     split
     · exact hs
     · rename_i x xs hq
+      rw [Sparse.reify_eq]
       apply ih
       apply Sparse.Reach.step hs
       have hmem : (x :: xs).getD (pick k (x :: xs) % (x :: xs).length) x ∈ Sparse.queued P s := by
@@ -342,9 +345,9 @@ theorem Sparse.run_reach (lat : Lat L) (P : Prog L) (val0 : Nat → L)
 within `mu init` iterations, for every schedule. -/
 theorem sparse_run_terminal (lat : Lat L) (hl : lat.Laws) (P : Prog L) (hw : P.WF) (hd : Dep P)
     (hm : Sparse.Mono lat P) (val0 : Nat → L) (h0 : InitBot lat P val0)
-    (rank : L → Nat) (H : Nat) (hr : Ranked lat rank H)
+    (rank : L → Nat) (H : Nat) (hr : Ranked lat rank H) (nv : Nat)
     (pick : Nat → List Nat → Nat) (fuel k : Nat) (s : Sparse.St L) (hs : Sparse.Reach lat P val0 s)
-    (hf : Sparse.mu P rank H s ≤ fuel) : Sparse.Terminal (Sparse.run lat P pick fuel k s).1 := by
+    (hf : Sparse.mu P rank H s ≤ fuel) : Sparse.Terminal (Sparse.run lat P nv pick fuel k s).1 := by
   induction fuel generalizing k s with
   | zero =>
     have hi := Sparse.inv_reach lat P hl hw hd val0 s hs
@@ -377,6 +380,7 @@ theorem sparse_run_terminal (lat : Lat L) (hl : lat.Laws) (P : Prog L) (hw : P.W
         rw [List.getElem?_eq_getElem hlt]
         exact List.getElem_mem hlt
       simp only [Sparse.queued, List.mem_filter] at hmem
+      rw [Sparse.reify_eq]
       apply ih _ _ (Sparse.Reach.step hs hmem.2)
       have := Sparse.mu_step lat P rank H hl hr val0 s _ (Sparse.inv_reach lat P hl hw hd val0 s hs)
         (Sparse.asc_reach lat P hl hw hd hm val0 h0 s hs) hmem.2
@@ -420,11 +424,11 @@ theorem exP_initbot : InitBot exLat exP exVal0 := by
   rcases this with rfl | rfl | rfl <;> rfl
 
 example :
-    let r := (Sparse.run exLat exP (fun _ _ => 0) 100 0 (Sparse.init exP exVal0)).1
+    let r := (Sparse.run exLat exP 4 (fun _ _ => 0) 100 0 (Sparse.init exP exVal0)).1
     Sparse.Terminal r ∧ r.val 0 = true ∧ r.val 1 = true ∧ r.val 2 = false := by
   refine ⟨?_, by decide, by decide, by decide⟩
   exact sparse_run_terminal exLat exLat_laws exP exP_wf exP_dep exP_mono exVal0 exP_initbot _ 1 exRanked
-    _ 100 0 _ Sparse.Reach.init (by decide)
+    4 _ 100 0 _ Sparse.Reach.init (by decide)
 end example_sparse
 
 end sparse
@@ -554,25 +558,79 @@ theorem nilness_laws :
     (∀ a < 5, nilMerge a 0 = a) := by
   decide
 
-/-- `ValueNilness` (Inner, Outer) with `lattice.Merge` = the table on each component. -/
-def nilValLat : Lat (Fin 5 × Fin 5) :=
-  { bot := (0, 0)
-    merge := fun a b => (Fin.ofNat 5 (nilMerge a.1 b.1), Fin.ofNat 5 (nilMerge a.2 b.2))
-    eq := fun a b => a == b }
+/-- product of two lattices (componentwise), e.g. `ValueNilness{Inner, Outer}`. -/
+def prodLat {A B : Type} (l1 : Lat A) (l2 : Lat B) : Lat (A × B) :=
+  { bot := (l1.bot, l2.bot)
+    merge := fun a b => (l1.merge a.1 b.1, l2.merge a.2 b.2)
+    eq := fun a b => l1.eq a.1 b.1 && l2.eq a.2 b.2 }
 
-/-- **nilness_lattice_lawful.** Hence the nilness lattice is an instance of the
-hypotheses of the solver theorems (`Lat.Laws`), with finite height 3 (`Ranked`). -/
+theorem prodLat_laws {A B : Type} {l1 : Lat A} {l2 : Lat B} (h1 : l1.Laws) (h2 : l2.Laws) :
+    (prodLat l1 l2).Laws := by
+  refine ⟨?_, ?_, ?_, ?_, ?_⟩
+  · intro a b
+    simp only [prodLat, Bool.and_eq_true, h1.eq_iff, h2.eq_iff]
+    exact ⟨fun h => Prod.ext h.1 h.2, fun h => by rw [h]; exact ⟨rfl, rfl⟩⟩
+  · intro a b c; simp only [prodLat, h1.assoc, h2.assoc]
+  · intro a b; simp only [prodLat, h1.comm a.1, h2.comm a.2]
+  · intro a; simp only [prodLat, h1.idem, h2.idem]
+  · intro a; simp only [prodLat, h1.ident, h2.ident]
+
+theorem Ranked.mono {L : Type} {lat : Lat L} {rank : L → Nat} {H : Nat} (hr : Ranked lat rank H)
+    [DecidableEq L] {a b : L} (h : lat.le a b) : rank a ≤ rank b := by
+  by_cases he : a = b
+  · rw [he]; exact Nat.le_refl _
+  · exact Nat.le_of_lt (hr.rank_lt a b h he)
+
+theorem prodLat_ranked {A B : Type} [DecidableEq A] [DecidableEq B] {l1 : Lat A} {l2 : Lat B}
+    {r1 : A → Nat} {r2 : B → Nat} {H1 H2 : Nat} (hr1 : Ranked l1 r1 H1) (hr2 : Ranked l2 r2 H2) :
+    Ranked (prodLat l1 l2) (fun a => r1 a.1 + r2 a.2) (H1 + H2) := by
+  refine ⟨?_, ?_⟩
+  · intro a
+    have := hr1.rank_le a.1
+    have := hr2.rank_le a.2
+    show r1 a.1 + r2 a.2 ≤ H1 + H2
+    omega
+  · intro a b hle hne
+    have hle1 : l1.le a.1 b.1 := congrArg Prod.fst hle
+    have hle2 : l2.le a.2 b.2 := congrArg Prod.snd hle
+    have m1 := hr1.mono hle1
+    have m2 := hr2.mono hle2
+    by_cases h1 : a.1 = b.1
+    · have h2 : a.2 ≠ b.2 := fun h2 => hne (Prod.ext h1 h2)
+      have := hr2.rank_lt _ _ hle2 h2
+      show r1 a.1 + r2 a.2 < r1 b.1 + r2 b.2
+      omega
+    · have := hr1.rank_lt _ _ hle1 h1
+      show r1 a.1 + r2 a.2 < r1 b.1 + r2 b.2
+      omega
+
+/-- one `Nilness` component as a lattice on `Fin 5` over the generated table. -/
+def nil5FinLat : Lat (Fin 5) :=
+  { bot := 0, merge := fun a b => Fin.ofNat 5 (nilMerge a.val b.val), eq := fun a b => a == b }
+
+/-- `ValueNilness` (Inner, Outer) with `lattice.Merge` = the table on each component. -/
+def nilValLat : Lat (Fin 5 × Fin 5) := prodLat nil5FinLat nil5FinLat
+
+theorem nil5Fin_laws : nil5FinLat.Laws := by
+  refine ⟨?_, ?_, ?_, ?_, ?_⟩
+  · intro a b; simp [nil5FinLat]
+  · decide
+  · decide
+  · decide
+  · decide
+
+theorem nil5Fin_ranked : Ranked nil5FinLat (fun a => [0, 1, 1, 2, 3].getD a.val 0) 3 := by
+  refine ⟨by decide, ?_⟩
+  unfold Lat.le
+  decide
+
+/-- **nilness_lattice_lawful.** Hence the nilness lattice `lattice` over `ValueNilness`
+is an instance of the hypotheses of the solver theorems (`Lat.Laws`), of finite height
+(`Ranked`) — the dense theorems apply to it as they stand. -/
 theorem nilness_lattice_lawful :
     nilValLat.Laws ∧
-    Ranked nilValLat (fun a => [0, 1, 1, 2, 3].getD a.1.val 0 + [0, 1, 1, 2, 3].getD a.2.val 0) 6 := by
-  refine ⟨⟨?_, ?_, ?_, ?_, ?_⟩, ⟨?_, ?_⟩⟩
-  · intro a b; simp [nilValLat]
-  · decide
-  · decide
-  · decide
-  · decide
-  · decide
-  · unfold Lat.le; decide
+    Ranked nilValLat (fun a => [0, 1, 1, 2, 3].getD a.1.val 0 + [0, 1, 1, 2, 3].getD a.2.val 0) (3 + 3) :=
+  ⟨prodLat_laws nil5Fin_laws nil5Fin_laws, prodLat_ranked nil5Fin_ranked nil5Fin_ranked⟩
 
 end lattices
 
